@@ -111,3 +111,19 @@ def cfacts(config="A"):
             raise SystemExit("cfacts failed on lib/src/lib.c (config %s): the C runtime does not compile?" % config)
         os.replace(out + ".tmp", out)
     return Facts(out)
+
+
+def cfacts_file(path, extra_flags=()):
+    """Facts of a single stand-alone C file (positive fixtures)."""
+    tool = build_cfacts()
+    hsh = tree_hash([path], extra=str(os.path.getmtime(tool)))
+    out = os.path.join(CACHE, "facts", "fx-%s-%s.json" % (os.path.basename(path), hsh))
+    if not os.path.exists(out):
+        os.makedirs(os.path.dirname(out), exist_ok=True)
+        root = os.path.dirname(path) + "/"
+        r = sh([tool, root, out + ".tmp", path, "--", "-std=c11", "-resource-dir", LLVM + "/lib/clang/14.0.6", "-Wno-everything"] + list(extra_flags))
+        if r.returncode != 0 or not os.path.exists(out + ".tmp"):
+            sys.stderr.write(r.stderr[-2000:])
+            raise SystemExit("cfacts failed on fixture %s" % path)
+        os.replace(out + ".tmp", out)
+    return Facts(out)
